@@ -43,6 +43,32 @@ func (f *Frame) siteEnv() *SpecEnv {
 			}
 		}
 	}
+	// any other local by its source name: the most recent dominating DebugRef (GlobalDebug mode)
+	fromDebug := map[string]bool{}
+	for _, b := range rpo(f.fn) {
+		if b != f.curB && !b.Dominates(f.curB) {
+			continue
+		}
+		for _, ins := range b.Instrs {
+			d, ok := ins.(*ssa.DebugRef)
+			if !ok {
+				continue
+			}
+			id, ok := d.Expr.(*ast.Ident)
+			if !ok {
+				continue
+			}
+			v, done := f.vals[d.X]
+			if !done {
+				continue
+			}
+			if _, taken := env.vars[id.Name]; taken && !fromDebug[id.Name] {
+				continue
+			}
+			env.vars[id.Name] = v
+			fromDebug[id.Name] = true
+		}
+	}
 	return env
 }
 
@@ -92,7 +118,7 @@ func (f *Frame) siteCall(instr ssa.Instruction, c *ssa.CallCommon) {
 		if sc.Kind != "callsite" {
 			continue
 		}
-		if !(name == sc.Target || strings.HasSuffix(name, "."+sc.Target) || strings.HasSuffix(name, ")."+sc.Target)) {
+		if !siteTargetMatches(name, sc.Target) {
 			continue
 		}
 		env := f.siteEnv()
@@ -115,4 +141,19 @@ func (f *Frame) siteCall(instr ssa.Instruction, c *ssa.CallCommon) {
 		goal := env.evalBool(sc.Expr)
 		f.oblige(fmt.Sprintf("site:call.%d", i), goal, "every call of "+sc.Target+" in this function: "+sc.Text, instr.Pos(), sc.Tags, true)
 	}
+}
+
+// callee name matches the clause target: exact, by short name, or by prefix when the target ends in *
+func siteTargetMatches(name, target string) bool {
+	if strings.HasSuffix(target, "*") {
+		pre := strings.TrimSuffix(target, "*")
+		if strings.HasPrefix(name, pre) {
+			return true
+		}
+		if i := strings.LastIndex(name, "/"); i >= 0 && strings.HasPrefix(name[i+1:], pre) {
+			return true
+		}
+		return false
+	}
+	return name == target || strings.HasSuffix(name, "."+target) || strings.HasSuffix(name, ")."+target)
 }
